@@ -9,6 +9,15 @@ HERE = os.path.dirname(os.path.dirname(os.path.abspath(__file__)))
 BASELINE = "cd /repo && /venv/bin/python -m pytest -ra -q -p no:cacheprovider --timeout=900 --continue-on-collection-errors"
 
 CHECKS = {
+    "C06": dict(
+        level="exploration",
+        technique="exhaustive grid identity for the 1-D kernel (degree argument), exhaustive table comparison, deviation-bounded enumeration over all ordered shell-type pairs on the real compute_overlap",
+        text="1-D kernel: all 64 (n1,n2)<=7 on a full 9x9x9 grid vs Gauss-Hermite quadrature (polynomial identity => all reals); every entry of the Cartesian-to-pure tables l<=7 and normalisation constants; "
+        "compute_overlap on all ordered pairs of shell types (l<=4 quick, l<=7 thorough; Cartesian and pure) x k<=1/2 deviations over geometry, contraction, conventions, one/two bases, exponent sets, "
+        "compared with an independent quadrature overlap; symmetry, PSD, transpose, translation and rejection clauses.",
+        note="reference = ref/gto.py (closed-form solid harmonics in exact rationals, 30-node Gauss-Hermite); screened contributions (<1e-15 prefactor) are computed by the reference and added to the tolerance",
+        design="DESIGN.md §2 C06",
+    ),
     "C10": dict(
         level="exploration",
         technique="exhaustive enumeration: full products of convention tables, complete small hyperoctahedral groups and bounded Cayley-graph BFS, on the real conversion functions",
@@ -32,6 +41,29 @@ CHECKS = {
         "invariants, read-back and other-spin-unchanged oracles on every transition; full constructor product and all Shell argument combinations with every single shape mismatch.",
         note="menus of 3 arrays per length plus wrong lengths n+1, n-1, 1 (broadcastable); invariants only demand what the statement says",
         design="DESIGN.md §2 C12",
+    ),
+    "C14": dict(
+        level="exploration",
+        technique="exhaustive enumeration of shell sequences / orbital sets on the real conversion functions, independent function evaluator as oracle",
+        text="All shell sequences of length <=3 over 10 (quick) / 12 (thorough) shell kinds x keep_sp, all restricted orbital sets norb<=4 x occupation pattern x occs_aminusb x missing arrays, "
+        "each x allow_changes for prepare_*; structure, function values in order, overlap, idempotence, same-object and warning/error contract.",
+        note="function values by ref/gto.py at 8 probe points; expected alpha/beta occupations restated from the class documentation",
+        design="DESIGN.md §2 C14",
+    ),
+    "C17": dict(
+        level="exploration",
+        technique="exhaustive enumeration of (file name x operation x explicit format) on the real selector and through the public API with recording stubs and a file-system audit hook",
+        text="Every name derived from every pattern (+45 ambiguous names) x 4 operations x 29 explicit-format values judged by an independent matcher; public-API dispatch with audit hook; "
+        "3 interpreters with different hash seeds; every declared attribute name; every guaranteed attribute on every loadable corpus file.",
+        note="patterns/operations are read from the modules (they are the declarations under test); an empty dict counts as set",
+        design="DESIGN.md §2 C17",
+    ),
+    "C19": dict(
+        level="exploration",
+        technique="deviation-bounded enumeration (k<=2 quick, k<=4 thorough) over 11 input axes on the real write_input, field-wise parse against independently computed fields",
+        text="All cases with <=2 (quick) / <=4 (thorough) deviations from the default over program, molecule, charge, spin, run type, lot, basis, title, template, atom_line callback, kwargs.",
+        note="hand-typed periodic table and CODATA angstrom; ties x.5 accept both neighbours; layout parsed by tokens",
+        design="DESIGN.md §2 C19",
     ),
     "C20": dict(
         level="exploration",
